@@ -11,8 +11,9 @@ import NurbsVerif.Driver.Fitting
 import NurbsVerif.Driver.Exchange
 import NurbsVerif.Driver.Effects
 import NurbsVerif.Driver.Ders
+import NurbsVerif.Driver.KnotRows
 namespace Drv
-def handlers : List (List String → Option String) := [handleBasic, handleShape, handleDegree, handleLinalg, handleLayout, handleEquality, handleWeights, handleMesh, handlePredicates, handleFitting, handleExchange, handleEffects, handleDers]
+def handlers : List (List String → Option String) := [handleBasic, handleShape, handleDegree, handleLinalg, handleLayout, handleEquality, handleWeights, handleMesh, handlePredicates, handleFitting, handleExchange, handleEffects, handleDers, handleKnotRows]
 def step (line : String) : String :=
   let toks := (line.trimAscii.toString.splitOn " ").filter (· ≠ "")
   match handlers.findSome? (fun h => h toks) with
